@@ -535,7 +535,8 @@ func (vc *VC) rangeAssumption(v Term, t types.Type, alloc Term) Term {
 		c = And(c, Implies(Eq(Rid(SBase(v)), IntLit(0)), And(Eq(SCap(v), IntLit(0)), Eq(Roff(SBase(v)), IntLit(0)))))
 		return c
 	case *types.Interface:
-		return And(Lt(Rid(IRefOf(v)), alloc), Ge(ITag(v), IntLit(0)), Implies(Eq(ITag(v), IntLit(0)), Eq(IRefOf(v), NullRef)))
+		return And(Lt(Rid(IRefOf(v)), alloc), Ge(ITag(v), IntLit(0)), Implies(Eq(ITag(v), IntLit(0)), Eq(IRefOf(v), NullRef)),
+			Implies(Eq(Rid(IRefOf(v)), IntLit(0)), Eq(Roff(IRefOf(v)), IntLit(0))))
 	case *types.Struct:
 		srt, err := vc.tt.SortOf(t)
 		if err != nil {
